@@ -34,6 +34,8 @@ def _graph(sx, kind, V):
         edges = [p for k, p in enumerate(pairs) if sx.flag("edge%d" % k)]
         sx.assume(len(edges) >= 1)
         return V, edges, (), ()
+    if kind == "hub5":   # vertex 0 joined to everybody, plus the chain 1-2-3-4: a vertex reached first directly, later through a detour
+        return 5, [(0, 1), (1, 2), (0, 2), (2, 3), (0, 3), (3, 4), (0, 4)], (), ()
     if kind == "tri2":
         return 4, (), [(0, 1, 2), (0, 2, 3)], ()
     if kind == "tri3":
@@ -279,6 +281,8 @@ def obligations(tier):
     for k in (["tri2"] if q else ["tri2", "tri3", "fan4"]):
         obs.append(Ob("border-" + k, vertex_set(k, 0, border=True), covers=COVERS, split=4,
                       note="shortest_path_to_border on " + k))
+    obs.append(Ob("path-hub5", single_target("hub5", 0, modes=(0,), forms=(0,), exports=(0,)), covers=COVERS, split=10,
+                  note="shortest_path on a 5-vertex hub-and-chain graph (7 edges), arbitrary weights, single target"))
     obs.append(Ob("path-attr-poly3", single_target("poly", 3, attr_weights=True, modes=(0,), forms=(0,), exports=(0,)), covers=COVERS, split=6,
                   note="weights given as a sparse edge Attribute (some entries left at the default), single target"))
     obs.append(Ob("set-attr-poly3", vertex_set("poly", 3, modes=(0,), exports=(0,), attr_weights=True), covers=COVERS, split=6,
